@@ -126,9 +126,9 @@ Definition same_conv (w w' : world) : Prop :=
   w_owner w' = w_owner w /\ w_ps w' = w_ps w /\ w_bks w' = w_bks w /\ w_next w' = w_next w /\ w_vc w' = w_vc w
   /\ w_pvars w' = w_pvars w.
 
-Lemma conv_conds_ideal E cls dets : forall ks w, wf0 E w ->
-  let w' := fst (conv_conds E cls dets w ks) in
-  snd (conv_conds E cls dets w ks) = omap (ideal_cond E (e_ne E cls) dets) ks
+Lemma conv_conds_ideal E cls dets fin : forall ks w, wf0 E w ->
+  let w' := fst (conv_conds E cls dets fin w ks) in
+  snd (conv_conds E cls dets fin w ks) = omap (ideal_cond E (e_ne E cls) dets fin) ks
   /\ wf0 E w' /\ same_conv w w'.
 Proof.
   induction ks as [|k ks IH]; intros w [Ht Hc]; simpl.
@@ -144,9 +144,9 @@ Proof.
         destruct (render_ideal (e_ne E cls) cls ct false (w_tpl w1) Ht1') as [H1 H2].
         destruct (render (e_ne E cls) cls false ct (w_tpl w1)) as [tp q]. simpl in H1, H2. subst q.
         assert (Hwf2 : wf0 E (set_tplw w1 tp)) by (split; [exact H1 | exact Hc1]).
-        destruct (ideal_render (e_ne E cls) false ct) as [s|e|e]; simpl.
+        destruct (obind (ideal_render (e_ne E cls) false ct) fin) as [s|e|e]; simpl.
         -- specialize (IH (set_tplw w1 tp) Hwf2).
-           destruct (conv_conds E cls dets (set_tplw w1 tp) ks) as [w3 r]. simpl in IH.
+           destruct (conv_conds E cls dets fin (set_tplw w1 tp) ks) as [w3 r]. simpl in IH.
            destruct IH as [Hr [Hwf3 [Ho3 [Hps3 [Hb3 [Hn3 [Hv3 Hpv3]]]]]]]. simpl. subst r.
            split; [destruct (omap _ ks); reflexivity|]. split; [exact Hwf3|].
            unfold same_conv. simpl in *. repeat split; congruence.
@@ -329,8 +329,8 @@ Proof.
   assert (Hl3 : lasts E w3) by (apply (lasts_ext E w w3 F4 F5 F6 Hl)).
   destruct res as [r'|e]; simpl.
   - assert (Hwf3 : wf0 E w3) by (split; [rewrite F1; exact Ht | rewrite F2; exact Hc]).
-    destruct (conv_conds_ideal E (b_cls bk) (r_dets r') (r_conds r') w3 Hwf3) as [Hq [Hwf4 [Ho4 [Hps4 [Hb4 [Hn4 [Hv4 Hpv4]]]]]]].
-    destruct (conv_conds E (b_cls bk) (r_dets r') w3 (r_conds r')) as [w4 qs]. simpl in *. subst qs.
+    destruct (conv_conds_ideal E (b_cls bk) (r_dets r') (finish_query E (b_cls bk) (ps_state (w_ps w3 L))) (r_conds r') w3 Hwf3) as [Hq [Hwf4 [Ho4 [Hps4 [Hb4 [Hn4 [Hv4 Hpv4]]]]]]].
+    destruct (conv_conds E (b_cls bk) (r_dets r') (finish_query E (b_cls bk) (ps_state (w_ps w3 L))) w3 (r_conds r')) as [w4 qs]. simpl in *. subst qs.
     split; [reflexivity|]. split; [rewrite Hps4; reflexivity|].
     split; [split; [exact Hwf4 | split; [eapply vcs_ext; [exact Hv4 | exact Hv3] | apply (lasts_ext E w3 w4 Hb4 Hn4 Hpv4 Hl3)]]|].
     repeat split; congruence.
@@ -352,8 +352,8 @@ Proof.
   assert (Hwf3 : wf0 E w3) by (split; [rewrite F1; exact Ht | rewrite F2; exact Hc]).
   assert (Hl3 : lasts E w3) by (apply (lasts_ext E w w3 F4 F5 F6 Hl)).
   destruct res as [r'|e]; simpl.
-  - destruct (conv_conds_ideal E (b_cls bk) (r_dets r') (r_conds r') w3 Hwf3) as [_ [Hwf4 [Ho4 [Hps4 [Hb4 [Hn4 [Hv4 Hpv4]]]]]]].
-    destruct (conv_conds E (b_cls bk) (r_dets r') w3 (r_conds r')) as [w4 qs]. simpl in *.
+  - destruct (conv_conds_ideal E (b_cls bk) (r_dets r') (finish_query E (b_cls bk) (ps_state (w_ps w3 L))) (r_conds r') w3 Hwf3) as [_ [Hwf4 [Ho4 [Hps4 [Hb4 [Hn4 [Hv4 Hpv4]]]]]]].
+    destruct (conv_conds E (b_cls bk) (r_dets r') (finish_query E (b_cls bk) (ps_state (w_ps w3 L))) w3 (r_conds r')) as [w4 qs]. simpl in *.
     split; [split; [exact Hwf4 | split; [eapply vcs_ext; [exact Hv4 | exact Hv3] | apply (lasts_ext E w3 w4 Hb4 Hn4 Hpv4 Hl3)]]|].
     repeat split; congruence.
   - split; [split; [exact Hwf3 | split; [exact Hv3 | exact Hl3]]|]. repeat split; assumption.
